@@ -35,6 +35,8 @@ LEVELS = {
         {'name': 'L1-W-W-T', 'shape': 'WWT', 'budget_s': 90},
         {'name': 'L2-two-blocks', 'shape': 'WT-WT', 'budget_s': 60},
         {'name': 'L3-G-W-T', 'shape': 'GWT', 'budget_s': 60},
+        {'name': 'L4-G-W-W-T', 'shape': 'GWWT', 'budget_s': 90},
+        {'name': 'L5-W-W-T-T', 'shape': 'WWTT', 'budget_s': 90},
     ],
     'thorough': [
         {'name': 'L1-G-W-W-T-T', 'shape': 'GWWTT', 'budget_s': 2400},
@@ -91,7 +93,7 @@ YAML = '''statechart:
 
 def shards(level):
     shape = level['shape']
-    if shape in ('WWT', 'GWT'):
+    if shape in ('WWT', 'GWT', 'GWWT', 'WWTT'):
         return [{'a1': i, 't1': j} for i in range(len(ACTIONS)) for j in range(len(THENS))]
     if shape == 'WT-WT':
         return [{'a1': 1, 't1': 0, 'a3': i} for i in range(len(ACTIONS))]
@@ -118,6 +120,20 @@ def scenario_for(g, job, level):
         out.append(('given', ACTIONS[job['a1']]))
         out.append(('when', ACTIONS[g.choice('a2', A)]))
         out.append(('then', THENS[job['t1']]))
+    elif shape == 'GWWT':
+        out.append(('given', ACTIONS[g.choice('g0', A)]))
+        out.append(('when', ACTIONS[job['a1']]))
+        a2 = g.choice('a2', A + 1)
+        if a2 < A:
+            out.append(('when', ACTIONS[a2]))
+        out.append(('then', THENS[job['t1']]))
+    elif shape == 'WWTT':
+        out.append(('when', ACTIONS[job['a1']]))
+        a2 = g.choice('a2', A + 1)
+        if a2 < A:
+            out.append(('when', ACTIONS[a2]))
+        out.append(('then', THENS[job['t1']]))
+        out.append(('then', THENS[g.choice('t2', T)]))
     elif shape == 'WT-WT':
         out.append(('when', ACTIONS[job['a1']]))
         out.append(('then', THENS[job['t1']]))
